@@ -205,12 +205,12 @@ PROPS = {
         "verus": ["H"],
         "trusted_base": ["Verus 0.2026.09.13 + Z3 (unit H: extracted PartialEq for Response::eq and headers_within)"],
         "assumptions": [
-            "http-types Headers is a HashMap seen as a finite map name -> values (content); Headers::get looks a name up; Iterator::all / Option::is_some_and / Iterator::eq are assumed parametric adapter contracts; the closures get contracts taken from the property",
+            "http-types Headers is a HashMap seen as a finite map name -> values (content)",
             "two HashMaps walked side by side (`a.iter().zip(b.iter()).all(..)`) have an UNSPECIFIED answer (weakest sound contract: iteration order is unspecified and differs between maps with equal contents)",
             "the body type's own PartialEq is the app's (uninterpreted body_eq_s); Option<Version> and StatusCode compare structurally",
         ],
         "not_decided": [
-            "the property is a two-run hyperproperty (same history => same serialized effects in every run and process): NOT decided; only its last clause - values the API hands out compare equal exactly when their contents are equal - is decided, and only for Response (hand-written PartialEq); HttpRequest / HttpResponse / HttpError / HttpHeader derive PartialEq (not checked: seed C11_1 replaces a derive by a hand-written order-insensitive eq and is missed)",
+            "the property is a two-run hyperproperty (same history => same serialized effects in every run and process): NOT decided; only its last clause - values the API hands out compare equal exactly when their contents are equal - is decided, and only for Response (hand-written PartialEq) - where it FAILS on the tree: known finding F5; HttpRequest / HttpResponse / HttpError / HttpHeader derive PartialEq (not checked: seed C11_1 replaces a derive by a hand-written order-insensitive eq and is missed)",
             "F6, seen and demonstrated but not decided: into_protocol_request emits headers in the request's HashMap iteration order, so the serialized effect of a request with several header names differs between runs",
             "timer ids from a process-wide counter; select! vs select_biased! (seed C11_2 is caught under C18)",
         ],
